@@ -99,6 +99,10 @@ fn marshal_variant(
     ctx: &mut MarshalContext,
     depth: usize,
 ) -> Result<(), MarshalError> {
+    // the signature written has to be the type of the value that follows it
+    if var.sig != var.value.sig() {
+        return Err(params::validation::Error::VariantTypeDiffers.into());
+    }
     let mut sig_str = String::new();
     var.sig.to_str(&mut sig_str);
     marshal_signature(&sig_str, ctx.buf)?;
